@@ -860,6 +860,44 @@ func main() {
 	sk("skel_prune", "pkg/prune/prune.go", "Prune")
 	sk("skel_prune_tables", "pkg/prune/prune.go", "pruneTables")
 	sk("skel_fetch", "cmd/wrgl/fetch/root.go", "Fetch")
+	cmdCalls := set("ref.GetHead", "ingestTable", "objects.SaveCommit", "saveHead", "ingest.IngestTableFromBlocks", "objects.GetTable",
+		"ingest.ProfileTable", "createMergeCommit", "ref.CommitMerge", "ref.DeleteHead", "commit")
+	skc := func(name, file, fn string) {
+		def(name, "list string", coqStrList(calls(findFunc(file, fn), cmdCalls)), file+": "+fn)
+	}
+	skc("skel_cmd_commit", "cmd/wrgl/commit_cmd.go", "commit")
+	skc("skel_cmd_commit_with_table", "cmd/wrgl/commit_cmd.go", "commitWithTable")
+	skc("skel_cmd_commit_temp_branch", "cmd/wrgl/commit_cmd.go", "commitTempBranch")
+	skc("skel_cmd_merge_result", "cmd/wrgl/merge_cmd.go", "commitMergeResult")
+	skc("skel_cmd_create_merge", "cmd/wrgl/merge_cmd.go", "createMergeCommit")
+	// SetWithLog: ref upsert and reflog insert inside ONE sqlutil.RunInTx
+	swl := "?"
+	if fd := findFunc("pkg/ref/sql/store.go", "Store.SetWithLog"); fd != nil && fd.Body != nil && len(fd.Body.List) == 1 {
+		if rs, ok := fd.Body.List[0].(*ast.ReturnStmt); ok && len(rs.Results) == 1 {
+			if c, ok := rs.Results[0].(*ast.CallExpr); ok && exprStr(c.Fun) == "sqlutil.RunInTx" {
+				src := exprSrc2(c)
+				if strings.Contains(src, "INSERT INTO refs") && strings.Contains(src, "INSERT INTO reflogs") && strings.Contains(src, "SELECT sum FROM refs") {
+					swl = "RunInTx"
+				}
+			}
+		}
+	}
+	if swl == "?" {
+		swl = "not-atomic"
+	}
+	def("setwithlog_shape", "string", coqStr(swl), "pkg/ref/sql SetWithLog: read old value, upsert ref and insert reflog row inside one sqlutil.RunInTx")
+	// sortBlocks: saved blocks are ordered by Offset with a full sort before the table is assembled
+	sbs := "?"
+	if fd := findFunc("pkg/ingest/inserter.go", "Inserter.sortBlocks"); fd != nil {
+		src := exprSrc2(fd.Body)
+		cs := calls(fd, set("sort.Slice", "sort.SliceStable", "sort.Sort"))
+		if len(cs) > 0 && strings.Contains(src, ".Offset < ") {
+			sbs = "sort-by-offset"
+		} else {
+			sbs = "no-sort"
+		}
+	}
+	def("sortblocks_shape", "string", coqStr(sbs), "Inserter.sortBlocks sorts asyncBlocks by Offset")
 	def("prune_search_guards", "list string", coqStrList(append(searchGuards(findFunc("pkg/prune/prune.go", "findCommitsToRemove")), searchGuards(findFunc("pkg/prune/prune.go", "pruneTables"))...)),
 		"for each sort.Search lookup in prune: is the found slot compared with the key before use")
 
